@@ -249,16 +249,36 @@ def gen_text(rng, ws_prob=0.5, words=WORDS, ws=WS, empty_ok=False):
     return s if (s or empty_ok) else rng.choice(ws)
 
 
+# rarely used shapes: names with dots/dashes/digits/underscores/non-ASCII letters, many namespaces, xml:* attributes,
+# long and astral strings, wide and deep trees (switched on per tree with probability STRESS)
+STRESS = 0.12
+ODD_NAMES = ["a.b", "x-y", "n_1", "_u", "é", "Tag9", "名"]
+ODD_ATTR_NAMES = ["data-x", "a.b", "_k", "n1"]
+ODD_VALUES = ["   ", " lead", "trail ", "x" * 120, "𝔘😀", "a  b"]
+MANY_NSS = ["urn:n1", "urn:n2", "urn:n3", "urn:n4", "urn:n5"]
+
+
 def gen_tree(rng, max_depth=4, max_kids=5, nss=NSS, p_text=0.45, p_comment=0.08, p_pi=0.05,
-             text=gen_text, attrs=True, space_attr=0.0, adjacent_text=False, inherit_ns=0.7, _ns=None, _depth=0):
+             text=gen_text, attrs=True, space_attr=0.0, adjacent_text=False, inherit_ns=0.7, _ns=None, _depth=0, _stress=None,
+             stress=True):
+    if _stress is None:
+        _stress = rng.choice(["names", "wide", "deep", "nss", "values"]) if (stress and rng.random() < STRESS) else ""
+    if _stress == "nss" and rng.random() < 0.5:
+        nss = list(nss) + MANY_NSS
     ns = _ns if (_ns is not None and rng.random() < inherit_ns) else rng.choice(nss)
     at = []
     if attrs:
-        for _ in range(rng.choice([0, 0, 0, 1, 1, 2, 3])):
-            ans = rng.choice(["", "", "", "urn:x", "urn:z"])
-            an = rng.choice(["id", "n", "type", "k"])
+        for _ in range(rng.choice([0, 0, 0, 1, 1, 2, 3]) + (3 if _stress == "values" and rng.random() < 0.3 else 0)):
+            ans = rng.choice(["", "", "", "urn:x", "urn:z"] + (MANY_NSS if _stress == "nss" else []))
+            an = rng.choice(["id", "n", "type", "k"] + (ODD_ATTR_NAMES if _stress in ("names", "values") else []))
             if not any(a[0] == ans and a[1] == an for a in at):
-                at.append([ans, an, rng.choice(ATTR_VALUES)])
+                at.append([ans, an, rng.choice(ATTR_VALUES + (ODD_VALUES if _stress == "values" else []))])
+        if _stress in ("names", "values") and rng.random() < 0.3 and not any(a[0] == XML_NS for a in at):
+            at.append([XML_NS, "lang", rng.choice(["en", "x1"])])  # not xml:id: its values must be unique per document
+    if _stress == "wide" and _depth == 0:
+        max_kids = 16
+    if _stress == "deep":
+        max_depth, max_kids = 8, 2
     if space_attr and rng.random() < space_attr:
         at.append([XML_NS, "space", rng.choice(["preserve", "preserve", "default", "bogus"])])
     kids = []
@@ -274,6 +294,9 @@ def gen_tree(rng, max_depth=4, max_kids=5, nss=NSS, p_text=0.45, p_comment=0.08,
             elif r < p_text + p_comment + p_pi:
                 kids.append(["p", rng.choice(["pi", "target"]), rng.choice(["", "x=1", "data  d"])])
             else:
-                kids.append(gen_tree(rng, max_depth, max_kids, nss, p_text, p_comment, p_pi, text, attrs,
-                                     space_attr, adjacent_text, inherit_ns, ns, _depth + 1))
-    return ["t", ns, rng.choice(NAMES), at, kids]
+                kids.append(gen_tree(rng, max_depth, max_kids if _stress != "wide" else 5, nss, p_text, p_comment, p_pi, text, attrs,
+                                     space_attr, adjacent_text, inherit_ns, ns, _depth + 1, _stress))
+    if _stress == "deep" and _depth < max_depth and not any(k[0] == "t" for k in kids):
+        kids.append(gen_tree(rng, max_depth, max_kids, nss, p_text, p_comment, p_pi, text, attrs,
+                             space_attr, adjacent_text, inherit_ns, ns, _depth + 1, _stress))
+    return ["t", ns, rng.choice(NAMES + (ODD_NAMES if _stress == "names" else [])), at, kids]
